@@ -420,6 +420,9 @@ def main(tier):
     # the statement is about expressions: their value is that of the standard tree (C04's tables as a premise)
     from .c04 import precedence_tables
     precedence_tables(run, F, {"eval_number": m}, PID)
+    # `xⁿ` is `x^n` with an Integer exponent: the superscript run must be read completely and leave the rest of the input alone
+    from .c13 import superscript_checks
+    superscript_checks(run, F, {"eval_number": m}, "C09")
     report_issues(run, {"eval_number": m}, tables={"T_eval", "T_prim", "T_lex"})
     run.floor("obligations", run.obligations, 40)
     return run.finish("partial evaluation of each operator arm for every (Integer|Float) operand combination, residual tree compared with the reference; cast-guard rule with folded constants", "./check C09 --tier %s" % tier)
